@@ -14,6 +14,7 @@ package c18
 
 import (
 	"fmt"
+	"os"
 	"sort"
 	"strings"
 	"testing"
@@ -42,6 +43,8 @@ type Case struct {
 	// Perturb selects the replacement values of the variable-insensitivity oracle (scope_test.go):
 	// entry i (cyclically) is the kind given to the i-th name the tree cannot see.
 	Perturb []int `json:"perturb,omitempty"`
+	// Scale: the case is a scale case (internal/exprgen/gen_scale.go): what was scaled and how far
+	Scale *x.Scale `json:"scale,omitempty"`
 }
 
 func genStyle(t *rapid.T) x.Style {
@@ -55,9 +58,13 @@ func genStyle(t *rapid.T) x.Style {
 	s.Esc = rapid.IntRange(0, 7).Draw(t, "esc") == 7
 	s.NumSpell = rapid.Bool().Draw(t, "numspell")
 	s.Alt = rapid.Bool().Draw(t, "alt")
+	s.ItemNL = rapid.IntRange(0, 3).Draw(t, "itemnl") == 3
 	s.Seed = rapid.Uint64Range(1, 1<<62).Draw(t, "seed")
 	return s
 }
+
+// C18_NOSCALE=1 switches the scale classes off (cost measurements only).
+var noScale = os.Getenv("C18_NOSCALE") != ""
 
 func gen(t *rapid.T, template bool) Case {
 	var c Case
@@ -103,6 +110,15 @@ func gen(t *rapid.T, template bool) Case {
 	for i := 0; i < 4; i++ {
 		c.Perturb = append(c.Perturb, rapid.IntRange(0, nPerturbKinds-1).Draw(t, "perturb"))
 	}
+	// SCALE: about 1 case in 40 is turned into a scale case (deep nesting inside a
+	// newline-sensitive context, or a large element / part / character / variable count)
+	if c.Probe == "" && rapid.IntRange(0, 39).Draw(t, "scale") == 17 && !noScale {
+		c.Root, c.Scale = g.ScaleCase(c.Root, c.Template, &c.Funcs, &c.Vars)
+		if c.Template && c.Root.K != x.KTmpl {
+			// the root of sub-check b stays a template
+			c.Root = &x.Node{K: x.KTmpl, Parts: []*x.Part{{K: x.PLit, S: "t:"}, {K: x.PInterp, E: c.Root}, {K: x.PLit, S: "\nmore\n"}}}
+		}
+	}
 	c.Styles = []x.Style{{}}
 	n := 1
 	if rapid.IntRange(0, 3).Draw(t, "morestyles") == 3 {
@@ -110,6 +126,13 @@ func gen(t *rapid.T, template bool) Case {
 	}
 	for i := 0; i < n; i++ {
 		c.Styles = append(c.Styles, genStyle(t))
+	}
+	if c.Scale != nil {
+		// every printing, the canonical one included, writes one object item per line: the
+		// scaled construct lies inside a newline-sensitive context in all of them
+		for i := range c.Styles {
+			c.Styles[i].ItemNL = true
+		}
 	}
 	return c
 }
@@ -573,6 +596,16 @@ func classify(c Case) core.Class {
 	for k := range vt {
 		cl.Labels = append(cl.Labels, "var-type:"+k)
 	}
+	if c.Scale != nil {
+		b := x.ScaleBucket(c.Scale.N)
+		cl.Labels = append(cl.Labels, "scale:"+c.Scale.What+":"+b, "scale:any")
+		if c.Scale.Ctx != "" {
+			cl.Labels = append(cl.Labels, "scale:depth:ctx="+c.Scale.Ctx, "scale:depth:mix="+c.Scale.Mix)
+		}
+		if c.Scale.Pos != "" {
+			cl.Labels = append(cl.Labels, "scale:pos="+c.Scale.Pos)
+		}
+	}
 	sl := scopeLabels(c)
 	cl.Labels = append(cl.Labels, sl...)
 	countScopeLabels(c, sl)
@@ -615,10 +648,13 @@ func faultClass(k string) string {
 	return k
 }
 
-const ruleCommon = "environment of 0-6 variables (numbers incl. dyadic fractions and 2^40, strings incl. numeric/boolean-looking and non-ASCII, bools, tuples, objects, cty lists / maps / sets of primitives, of objects, nested and empty, nulls of every type, unknown values), 0-3 functions defined through ext/userfunc blocks (may call earlier ones, variadic, closures over the variables) plus tryfunc try/can; a typed tree of depth<=6 over literals, variables, unary/binary arithmetic, comparison, equality across types, logic, conditional (same-typed, null, string-unification branches), tuple/object constructors (keys as bare literal name incl. true/false/null/if/for, quoted literal, number, operator expression, (k), \"${k}\", \"${k}x\", \"x${k}\", \"${k.a}\", heredoc-able \"${k}\\n\" with k a variable / for iterator / undefined name / null / keyword / non-primitive; selector variables named like one field and valued like another), index (literal, computed, string key, by variable obj[b] vs obj.b), attribute, attribute-only and full splat (incl. traversal inside the splat vs applied to its result, splat of null / single value / list), for-expressions (tuple and object form, key+value variables, if, grouping), calls (incl. argument expansion), templates (literal, ${}, %{if/else}, %{for}, ~ strip markers, passthrough of a single interpolation); with probability 0.35 one node is replaced by an ill-typed variant (16 kinds: ill-typed operator, undefined variable/function, missing attribute, index out of range / negative / fractional / into a primitive, duplicate key without grouping, null or non-primitive in a template, null operand, wrong arity, for over a primitive, non-boolean condition, bad expansion); about 0.4% of the expression roots are a fixed-shape probe (for-expression whose if clause holds a conditional that unifies only for the real key type) that meets the known early-condition-check finding. Every tree is printed 2-3 times: canonical minimal spelling and random spellings (redundant parentheses, spacing, tabs, newlines and # // /* */ comments where insignificant, ':' vs '=' and newline vs comma in object constructors, trailing commas, x.0 vs x[0], .* vs [*], number spellings 1e3 / 2.50 / 25e-1, \\xHH byte escapes (the fork's own escape), quoted vs heredoc vs flush heredoc with extra indentation). Oracle: all printings RawEqual and same error-ness; reference evaluator (exact rationals) says value => no error diagnostic and same value+type; says error => error diagnostic; trees leaving the documented semantics (README.md) are checked metamorphically only. Non-trivial: an operator with an unparenthesised operand of another precedence level in the minimal spelling, or a for-expression / splat / template directive; distinct = (feature set: operators, conditional, access/splat, for, call, template | depth bucket | fault kind | set of printing modes)" + ruleScope
+const ruleCommon = "environment of 0-6 variables (numbers incl. dyadic fractions and 2^40, strings incl. numeric/boolean-looking and non-ASCII, bools, tuples, objects, cty lists / maps / sets of primitives, of objects, nested and empty, nulls of every type, unknown values), 0-3 functions defined through ext/userfunc blocks (may call earlier ones, variadic, closures over the variables) plus tryfunc try/can; a typed tree of depth<=6 over literals, variables, unary/binary arithmetic, comparison, equality across types, logic, conditional (same-typed, null, string-unification branches), tuple/object constructors (keys as bare literal name incl. true/false/null/if/for, quoted literal, number, operator expression, (k), \"${k}\", \"${k}x\", \"x${k}\", \"${k.a}\", heredoc-able \"${k}\\n\" with k a variable / for iterator / undefined name / null / keyword / non-primitive; selector variables named like one field and valued like another), index (literal, computed, string key, by variable obj[b] vs obj.b), attribute, attribute-only and full splat (incl. traversal inside the splat vs applied to its result, splat of null / single value / list), for-expressions (tuple and object form, key+value variables, if, grouping), calls (incl. argument expansion), templates (literal, ${}, %{if/else}, %{for}, ~ strip markers, passthrough of a single interpolation); with probability 0.35 one node is replaced by an ill-typed variant (16 kinds: ill-typed operator, undefined variable/function, missing attribute, index out of range / negative / fractional / into a primitive, duplicate key without grouping, null or non-primitive in a template, null operand, wrong arity, for over a primitive, non-boolean condition, bad expansion); about 0.4% of the expression roots are a fixed-shape probe (for-expression whose if clause holds a conditional that unifies only for the real key type) that meets the known early-condition-check finding. Every tree is printed 2-3 times: canonical minimal spelling and random spellings (redundant parentheses, spacing, tabs, newlines and # // /* */ comments where insignificant, ':' vs '=' and newline vs comma in object constructors, trailing commas, x.0 vs x[0], .* vs [*], number spellings 1e3 / 2.50 / 25e-1, \\xHH byte escapes (the fork's own escape), quoted vs heredoc vs flush heredoc with extra indentation). Oracle: all printings RawEqual and same error-ness; reference evaluator (exact rationals) says value => no error diagnostic and same value+type; says error => error diagnostic; trees leaving the documented semantics (README.md) are checked metamorphically only. Non-trivial: an operator with an unparenthesised operand of another precedence level in the minimal spelling, or a for-expression / splat / template directive; distinct = (feature set: operators, conditional, access/splat, for, call, template | depth bucket | fault kind | set of printing modes)" + ruleScope + ruleScale
 
 // name binding (scope_test.go, internal/exprgen/scope.go, gen_scope.go)
 const ruleScope = ". NAME BINDING: the names of iteration variables (for-expressions and %{for} directives) are drawn from a small pool shared with the environment (30% of the environment names come from x/k/v/i), from the visible environment variables / function parameters (the loop SHADOWS them; half of the time one whose value is unknown) and from the variables of the enclosing loops (the inner loop RE-BINDS the name: about 2 in 3 trees with nested loops), with uses of the name before, inside and after the inner loop in one clause (natural in tuple / object constructors, operators and template bodies, plus a 'sandwich' constructor [use, inner loop binding the same name - often `for x in x` -, use][i] / {p = use, q = loop, r = use}.r placed in any clause of a loop); the environment also holds cty.UnknownVal of every generated type, cty.DynamicVal and known tuples / objects / lists / maps that CONTAIN an unknown at some depth (about 1 variable in 4), also under names that loops shadow; try() / can() stand anywhere in the tree and additionally wrap the whole root (2 in 10: try(root), try(root, fallback), can(root)). Extra oracles: (3) the root names of hclsyntax.Variables(expr) of every parsed printing and of every user-function body equal the free variables computed by the harness's own scope-aware walk over the generated tree; (4) when no free variable of the tree or of a function body holds an unknown, the tree is evaluated again in an environment in which every name it cannot see (environment variables that are not free, names bound only by its loops) is replaced by cty.DynamicVal / an unknown string / an unknown list / an object or tuple containing an unknown / a known string / nothing, and error-ness and value must be unchanged; the reference evaluator and the 'unknown involved' exemption are scope-aware (only FREE names that hold unknowns exempt a case; try/can defer only for free names), so a shadowed unknown is under the full differential oracle. Labels scope:*, call:*, unknown:*, conj:* (conjunctions try/can x re-bound-name-used-after-the-inner-loop x environment-holds-that-name-unknown); their rates per 10000 cases are recorded as the extra key name_binding_classes_per_10000_cases because the histogram keeps the 60 most frequent labels only"
+
+// scale classes (internal/exprgen/gen_scale.go)
+const ruleScale = ". SCALE: about 1 case in 60 (draw 1 in 40 of rapid's small-biased range) is turned into a scale case AFTER fault injection and try/can wrapping, labels scale:<what>:<bucket> (buckets 64-129, 255-513, 999-1025, 2047-4097, 8191+; absolute numbers in the extra key scale_cases_of_this_shard), every printing (the canonical one too) then writes one object-constructor item per line and the function blocks with `result` first, followed by the other attributes on later lines (printing dimension itemnl, also drawn for 1 in 4 random styles of ordinary cases). depth: one sub-expression of the root (70%) or of a user-function body (30%) is wrapped N = 63,64,65,127,128,129,255,256,257 or 1000 levels deep in value-preserving wrappers cycling through a drawn pattern of 1-3 kinds - redundant parentheses (a tree node here), [e][0], \"${e}\", [for v in [e] : v][0], {w = e}.w - plus at most two try(e) (the fork evaluates a try argument twice, so k nested try calls cost 2^k: never nested deeply), and the nest is the value of an object-constructor item followed by further items ({p = small, q = NEST, r = small}.q, or an existing non-last item), not below a quoted template where that is possible; HEAD parses and evaluates 10000 levels of every kind (0.2-0.6 s), the cut at 1000 keeps a case below ~0.1 s and its JSON form below encoding/json's nesting limit. tuple / object / for / args with N from {63,64,65,...,8191,8192,8193} (27 threshold-adjacent values): a sub-expression e of the tree is replaced by [bulk.., e, ..bulk][i] / {e0 = .., ei = e, ..}.ei or [\"ei\"] / [for k,v in BULK : v][i], [.. if k >= i][0], {for k,v in BULK : \"e${k}\" => v}[\"ei\"], {.. => v...}.g[i] / f(bulk.., e, ..)[i], f([bulk]...)[i] with a variadic user function, try(failing x (N-1), e), with e before, in the middle of, after the bulk or right at a threshold and two more small generated expressions next to it; tmplparts: N template parts (literals, interpolations, now and then an if directive, optionally ending lines) spliced before / into the middle of / after the parts of a template root, or observed as second element of [root, template]; strlen: a literal of N characters (ASCII, multi-byte, quote, backslash, ${ and %{ escapes); nvars: N more environment variables of which the first, middle and last are read. The wrappers and containers preserve the value of the sub-expression, so all oracles apply unchanged at scale"
 
 var assumptions = []string{
 	"number literals are integers or dyadic fractions so that cty's 512-bit floats are exact; results needing more than 300 bits, non-dyadic quotients, division by zero, modulo outside naturals are not compared with the reference",
